@@ -247,8 +247,10 @@ def reference_probe_answer():
     return _REF['p']
 
 
-def judge_stream(stream, label, part, chunker=None, expect_probe=False, ctx=None):
-    """Run the stream and judge every response. Returns signature of the outcome."""
+def judge_stream(stream, label, part, chunker=None, expect_probe=False, ctx=None, undecodable=()):
+    """Run the stream and judge every response. Returns signature of the outcome.
+    undecodable: indices of frames that cannot be fully decoded whatever the library's decoder
+    says (a primitive whose declared value is cut short by its container)."""
     frames, tail = frames_of(stream)
     r = Run(stream, chunker)
     ctx = dict(ctx or {}, label=label)
@@ -272,7 +274,7 @@ def judge_stream(stream, label, part, chunker=None, expect_probe=False, ctx=None
             part.violation("response-count|%s" % key,
                            "%s: %d complete frames but %d responses" % (label, len(frames), len(r.conn.sent)), ctx)
             return ('count', len(frames), len(r.conn.sent))
-        accepted = [library_accepts(f) for f in frames]
+        accepted = [library_accepts(f) and i not in undecodable for i, f in enumerate(frames)]
         if len(r.calls) != sum(accepted):
             part.violation("engine-calls|%s" % key,
                            "%s: the engine was entered %d times for %d decodable frames" % (
@@ -327,8 +329,11 @@ def _mut_worker(task):
             if m in seen:
                 continue
             seen.add(m)
+            short = ttlv.short_primitive(frame, m) if label.startswith('length=') else None
+            if short:
+                part.count('short_primitive_mutants')
             sig = judge_stream(m + probe_frame(), '%s|%s' % (label, cname), part, expect_probe=True,
-                               ctx={'corpus': cname, 'mutation': label})
+                               ctx={'corpus': cname, 'mutation': label}, undecodable=(0,) if short else ())
             part.count('mutants')
             sigs.add((label.split('|')[0], sig[0] if sig else None))
         part.sample({'corpus': cname, 'mutants': len(seen)})
@@ -550,12 +555,16 @@ def run(tier, seed):
              "response size menus around each response length. distinct_nontrivial = distinct "
              "(mutation kind, outcome) signatures",
         frames=rep.counters.get('frames', 0), content_mutants=rep.counters.get('mutants', 0),
+        short_primitive_mutants=rep.counters.get('short_primitive_mutants', 0),
         corpus_requests=len(corp), chunkings_16_byte=len(comps), exhaustive=False,
     ), assumptions=[
         "recv() returning None is not in the menu (a blocking TLS socket never does); an incomplete "
         "frame followed by end of stream needs no answer",
         "'the library's decoder rejects the frame' is decided by running RequestMessage.read "
-        "separately on the same bytes",
+        "separately on the same bytes; in addition a frame in which a primitive item declares more "
+        "value bytes than its enclosing structure holds cannot be fully decoded by anyone and must be "
+        "refused (structures with over-long length fields whose children are all present are "
+        "accepted by the library's lenient decoder and are not demanded to be refused)",
         "the outer TTLV length is the framing itself, so mutants keep it consistent with the bytes sent",
     ])
 
@@ -575,7 +584,9 @@ def replay(doc):
         frame = dict(corpus(tier))[doc['corpus']]
         for label, m in mutations(frame):
             if label == doc['mutation']:
-                judge_stream(m + probe_frame(), label + '|' + doc['corpus'], part, expect_probe=True)
+                short = ttlv.short_primitive(frame, m) if label.startswith('length=') else None
+                judge_stream(m + probe_frame(), label + '|' + doc['corpus'], part, expect_probe=True,
+                             undecodable=(0,) if short else ())
                 break
     elif 'raw' in doc:
         judge_stream(bytes.fromhex(doc['raw']), 'raw', part)
